@@ -27,6 +27,7 @@ TRANSPORTS = {
     'alias': None,     # handled in the renderer: let-bound alias before the call
     'stack': lambda f, t: 'stack().push(%s).head()' % f,
     'mapping': lambda f, t: 'mapping<int>().set(0, %s)[0]' % f,
+    'partial': lambda f, t: 'partial(%s)' % f,
 }
 
 
@@ -315,6 +316,14 @@ def text_cases(tier):
                     'fn mk(n: int)->(int)->(int){ if(n == 0, (x: int)->{ x }, (()->{ let inner = mk(n - 1); (x: int)->{ inner(x) + n } })()) } let r = mk(%d)(1000);' % n,
                     1000 + sum(range(1, n + 1)), ''))
     # the same literal instantiated with different captures, called interleaved
+    # partial application keeps the supplied values, not the expressions: the result may be called anywhere
+    out.append(('closure|partial-returned', 'fn add2(a: int, b: int)->int{ a * 10 + b } fn mk(k: int)->(int)->(int){ partial(add2, k) } let p3 = mk(3); let p7 = mk(7); let k = 100; '
+                'let r = p3(1) * 1000 + p7(2);', 31072, ''))
+    out.append(('closure|partial-of-local', 'fn add3(a: int, b: int, c: int)->int{ a * 100 + b * 10 + c } fn mk(k: int)->(int)->(int){ let j = k + 1; let p = partial(add3, k, j); let j = 0; p } '
+                'fn ap(h: (int)->(int))->int{ let k = 9; let j = 9; h(5) } let r = ap(mk(1)) * 1000 + ap(mk(3));', 125 * 1000 + 345, ''))
+    out.append(('closure|partial-evaluates-once', 'fn add2(a: int, b: int)->int{ a * 10 + b } let p = partial(add2, display(4)); let r = p(1) + p(2);', 41 + 42, '4\n'))
+    out.append(('closure|partial-in-map', 'fn add2(a: int, b: int)->int{ a * 10 + b } let fs = range(3).map((i: int)->{ partial(add2, i) }).to_array(); let r = fs[0](5) + fs[1](5) * 100 + fs[2](5) * 10000;',
+                5 + 15 * 100 + 25 * 10000, ''))
     out.append(('closure|interleaved-instances', 'fn adder(k: int)->(int)->(int){ (x: int)->{ x + k } } let a1 = adder(1); let a2 = adder(20); let r = a1(a2(a1(a2(0))));', 42, ''))
     out.append(('closure|three-levels', 'fn l1(a: int)->(int)->((int)->(int)){ (b: int)->{ (c: int)->{ a * 100 + b * 10 + c } } } let p = l1(1); let q = p(2); let q2 = l1(7)(8); let r = q(3) * 1000 + q2(9);', 123789, ''))
     out.append(('closure|captured-function-value', 'fn twice(f: (int)->(int))->(int)->(int){ (x: int)->{ f(f(x)) } } let k = 3; let addk = (x: int)->{ x + k }; let k = 100; let r = twice(twice(addk))(0);', 12, ''))
